@@ -48,13 +48,13 @@ func (c c06Cfg) String() string {
 }
 
 type c06World struct {
-	card   *chipsim.Card
-	nfc    *iso7816.NfcSession
-	doc    *document.Document
-	dg14   []byte
-	oldSM  *chipsim.SM // copy of the pre-CA session (for impostor strategies)
-	caKey  *chipsim.CAKey
-	curve  *ecref.Curve
+	card  *chipsim.Card
+	nfc   *iso7816.NfcSession
+	doc   *document.Document
+	dg14  []byte
+	oldSM *chipsim.SM // copy of the pre-CA session (for impostor strategies)
+	caKey *chipsim.CAKey
+	curve *ecref.Curve
 }
 
 func c06BuildDG14(cfg c06Cfg, keys []*issuer.Key, ids []int, infoKeyID int) []byte {
